@@ -186,13 +186,81 @@ def run(ctx):
                'printed rows are those at window[0] + k*step: the remainder must be taken of '
                '(pH - window[0]), else the lower end point of a window that does not start at '
                'a multiple of the step is never printed', out, m)
+    wcan = canon(writer)
+    wparam = [a.arg for a in writer.args.args + writer.args.kwonlyargs if a.arg == 'window'] or ['window']
+    W = wparam[0]
+
+    def window_item(text, i):
+        """text denotes window[i], possibly converted (float(), Decimal(str()))"""
+        t = text.replace(' ', '')
+        return t in ('%s[%d]' % (W, i), 'float(%s[%d])' % (W, i), 'Decimal(str(%s[%d]))' % (W, i),
+                     '(float(x)forxin%s)[%d]' % (W, i), '(float(v1)forv1in%s)[%d]' % (W, i))
+    if not all_mods:
+        # shape B: nearest window point k = round((pH - w0) / step), printed when
+        # |pH - (w0 + k*step)| < tolerance
+        near = []
+        for node in walk_no_nested(writer):
+            if isinstance(node, ast.Compare) and len(node.ops) == 1 and isinstance(node.ops[0], (ast.Lt, ast.LtE)) \
+                    and isinstance(node.left, ast.Call) and call_name(node.left) == 'abs':
+                e = wcan.expr(node.left.args[0])
+                tol = wcan.expr(node.comparators[0])
+                tolv = _literal_number(tol)
+                ok = False
+                if isinstance(e, ast.BinOp) and isinstance(e.op, ast.Sub) and isinstance(e.right, ast.BinOp) \
+                        and isinstance(e.right.op, ast.Add) and window_item(norm(e.right.left), 0) \
+                        and isinstance(e.right.right, ast.BinOp) and isinstance(e.right.right.op, ast.Mult):
+                    k, st = e.right.right.left, e.right.right.right
+                    if window_item(norm(k), 2):
+                        k, st = st, k
+                    kt = norm(k).replace(' ', '')
+                    ok = window_item(norm(st), 2) and kt.startswith('round((') and tolv is not None \
+                        and tolv <= 0.005 + 1e-12
+                near.append(node)
+                ctx.ob('C10.R2', 'window:nearest-window-point:' + norm(node)[:60], ok,
+                       'a grid pH is printed when it coincides (tolerance <= 0.005) with '
+                       'window[0] + k*window[2] for the nearest integer k', out, node)
+        ctx.ob('C10.R2', 'window:filter-shape-recognised', bool(near),
+               'the window filter is either a remainder test on (pH - window[0]) or a nearest-'
+               'window-point test', out, writer)
+    # the step that is used is the requested one
+    rounded_step = [n for n in walk_no_nested(writer) if isinstance(n, ast.Call) and call_name(n) == 'round'
+                    and n.args and ('%s[2]' % W) in norm(n.args[0])]
+    ctx.ob('C10.R2', 'window:step-not-rounded', not rounded_step,
+           'the window step enters the filter as requested, not rounded to two decimals (0.025 '
+           'would become 0.03, 0.125 become 0.12, anything below 0.005 become 0)', out,
+           rounded_step[0] if rounded_step else writer)
+    # bounds are compared like with like
+    mixed = []
+    for node in walk_no_nested(writer):
+        if isinstance(node, ast.Compare) and any(('%s[%d]' % (W, i)) in norm(node) for i in (0, 1)):
+            sides = [node.left] + node.comparators
+            texts = [wcan.text(x) for x in sides]
+            dec = ['Decimal(' in t for t in texts]
+            raw = [norm(x).replace(' ', '') in ('%s[0]' % W, '%s[1]' % W) for x in sides]
+            if any(dec) and any(raw):
+                mixed.append(node)
+    ctx.ob('C10.R2', 'window:bounds-like-with-like', not mixed,
+           'a pH that was rounded to a Decimal is not compared with the raw float bound: '
+           'Decimal("1.100") >= 1.1 is False because the float 1.1 lies above its decimal value, '
+           'so the row at the lower bound was dropped', out, mixed[0] if mixed else writer)
     ctx.need('C10.R2', 2)
     # the window bounds are inclusive tests on both ends
     wtests = [n for n in walk_no_nested(writer) if isinstance(n, ast.Compare)
               and 'window[' in norm(n)]
     txts = sorted(norm(n).replace(' ', '') for n in wtests)
-    ctx.ob('C10.R2', 'window:inclusive-bounds',
-           any('>=window[0]' in t for t in txts) and any('<=window[1]' in t for t in txts),
+    lo_ok = any('>=window[0]' in t for t in txts)
+    hi_ok = any('<=window[1]' in t for t in txts)
+    for node in walk_no_nested(writer):
+        # chained form  w_min - tol <= pH <= w_max + tol
+        if isinstance(node, ast.Compare) and len(node.ops) == 2 \
+                and all(isinstance(o, ast.LtE) for o in node.ops):
+            lo_t = wcan.text(node.left).replace(' ', '')
+            hi_t = wcan.text(node.comparators[1]).replace(' ', '')
+            if '[0]' in lo_t and W in lo_t:
+                lo_ok = True
+            if '[1]' in hi_t and W in hi_t:
+                hi_ok = True
+    ctx.ob('C10.R2', 'window:inclusive-bounds', lo_ok and hi_ok,
            'rows are printed for window[0] <= pH <= window[1], both ends included (%s)' % txts,
            out, wtests[0] if wtests else writer)
 
